@@ -10,6 +10,7 @@
 //@rewrite `.trim_end_matches(` => `.shim_trim_end_matches(` :: as strip_prefix
 //@rewrite `.starts_with(` => `.shim_starts_with(` :: as strip_prefix
 //@rewrite `.ends_with(` => `.shim_ends_with(` :: as strip_prefix
+//@rewrite `.parse::<TokenStream>()` => `.shim_try_parse_tokens()` :: str::parse is generic over FromStr; stand-in: Ok exactly when the text lexes, then the tokens as an uninterpreted function of the text (spec/lib/tokens.rs)
 //@rewrite `.to_string()` => `.shim_to_string()` :: ToString::to_string comes from the blanket impl over Display, which Verus cannot specify; stand-in with an uninterpreted function of the receiver (spec/lib/print_model.rs)
 // Unit libmain: lib::{create_shader_module, create_shader_module_embedded, create_shader_module_inner, pretty_print, pretty_print_rustfmt}.
 #![feature(allocator_api)]
@@ -410,10 +411,10 @@ fn create_shader_module_inner(
         crate::model_stages::lemma_stage_map_is(&module, global_stages@);
         assert(global_stages@ == spec_global_stages(&module));
         assert(stage_map_ok(global_stages@));
-    }»
+    }
 
     // Write all the structs, including uniforms and entry function inputs.
-    «proof { lemma_structs_noninterference(&module, options, opts_of(so)); }»
+    proof { lemma_structs_noninterference(&module, options, opts_of(so)); }»
     let structs = structs::structs(&module, options);
     let consts = consts::consts(&module);
     let bind_groups_module = bind_groups_module(&bind_group_data, &global_stages);
@@ -520,10 +521,28 @@ fn pretty_print(output: TokenStream) -> «(r:» String«)
 }
 //@end
 
+//@stub lib.rs::token_text
+«#[verifier::external_body]»
+fn token_text(tokens: TokenStream) -> «(r:» String«)
+    ensures r@ == canon_text(ts_view(&tokens)), // [C19.canon] TRUSTED (the body walks proc_macro2 token trees, which Verus cannot see into): the text is a function of the tokens»
+{ unimplemented!() }
+//@end
+
+//@fn lib.rs::is_same_program props=C19
+fn is_same_program(formatted: &str, tokens: &TokenStream) -> «(r:» bool«)
+    ensures r == same_program(formatted@, ts_view(tokens)), // [C19.same-program] true exactly when the formatted text lexes and its canonical token text equals that of the generated tokens»
+{
+    match formatted.shim_try_parse_tokens() {
+        Ok(formatted) => token_text(formatted) == token_text(tokens.clone()),
+        Err(_) => false,
+    }
+}
+//@end
+
 //@fn lib.rs::pretty_print_rustfmt props=C19
 fn pretty_print_rustfmt(tokens: TokenStream) -> «(r:» String«)
     ensures
-        printed(ts_view(&tokens), true, r@), // [C19.no-panic] [C19.fallback] never panics; returns the unformatted token string unless the whole input was written, the formatter exited successfully and printed non-empty valid UTF-8 - then exactly that output»
+        printed(ts_view(&tokens), true, r@), // [C19.no-panic] [C19.fallback] [C19.same-program] never panics; returns the unformatted token string unless the whole input was written, the formatter exited successfully and printed non-empty valid UTF-8 THAT LEXES TO THE SAME TOKENS (modulo trailing commas) - then exactly that output: with the option on the text is, token for token, the same program»
 {
     let value = tokens.shim_to_string();
     // TODO: Return errors?
@@ -544,7 +563,11 @@ fn pretty_print_rustfmt(tokens: TokenStream) -> «(r:» String«)
         if let Ok(output) = proc.wait_with_output() {
             if written && output.status.success() && !output.stdout.is_empty() {
                 if let Ok(formatted) = String::from_utf8(output.stdout) {
-                    return formatted;
+                    // rustfmt may exit successfully without reading its input,
+                    // so only accept output that is still the same program.
+                    if is_same_program(&formatted, &tokens) {
+                        return formatted;
+                    }
                 }
             }
         }
